@@ -6,6 +6,7 @@ Import ListNotations.
 Require Import MV.Spec.Rel MV.Proofs.RelLemmas MV.Proofs.RelAssocP MV.Spec.RelNary.
 Open Scope string_scope.
 Open Scope list_scope.
+Open Scope nat_scope.
 
 (* ==================================================================================================== *)
 (* 1. rows that bind the same columns to the same values (finer than row_equiv: null bindings count) *)
@@ -502,3 +503,485 @@ Proof.
       apply Forall2_map_same. intro t. apply perm_swap.
   - eapply TP_trans; eauto.
 Qed.
+
+(* ==================================================================================================== *)
+(* 7. two comprehensions over permuted index lists are the same bag *)
+
+Lemma sat_perm_tuple : forall E t t', NoDup (map fst t) -> Permutation t t' -> sat E t = sat E t'.
+Proof.
+  intros E t t' ND P. unfold sat. apply forallb_ext_in_l. intros [[[[jt a] b] lk] rk] _. simpl.
+  now rewrite (tget_perm a t t' ND P), (tget_perm b t t' ND P).
+Qed.
+
+Lemma final_bag_eq : forall css E P1 P2,
+  TP P1 P2 ->
+  (forall t, In t P1 -> wf_tuple css t /\ NoDup (map fst t)) ->
+  (forall t, In t P1 -> sat E t = true -> coh css t) ->
+  bag_eq (map urow (filter (sat E) P1)) (map urow (filter (sat E) P2)).
+Proof.
+  intros css E P1 P2 [l [P F]] W C.
+  apply bag_eq_trans with (map urow (filter (sat E) l)).
+  - apply perm_bag_eq. apply Permutation_map. now apply perm_filter.
+  - apply teq_bag_eq.
+    assert (W' : forall t, In t l -> wf_tuple css t /\ NoDup (map fst t)).
+    { intros t H. apply W. eapply Permutation_in; [apply Permutation_sym; exact P | exact H]. }
+    assert (C' : forall t, In t l -> sat E t = true -> coh css t).
+    { intros t H. apply C. eapply Permutation_in; [apply Permutation_sym; exact P | exact H]. }
+    clear P W C. induction F as [|t t' l P2 Ht F IH]; simpl; [apply teq_nil|].
+    destruct (W' t (or_introl eq_refl)) as [Wt Nt].
+    rewrite <- (sat_perm_tuple E t t' Nt Ht).
+    assert (IH' : teq (map urow (filter (sat E) l)) (map urow (filter (sat E) P2))).
+    { apply IH; intros; [apply W' | apply C']; simpl; auto. }
+    destruct (sat E t) eqn:S; simpl; auto.
+    apply teq_cons; auto. apply (urow_perm css); auto. apply C'; simpl; auto.
+Qed.
+
+(* ==================================================================================================== *)
+(* 8. partitions *)
+
+Lemma nodup_app_disj : forall (A : Type) (l1 l2 : list A) x, NoDup (l1 ++ l2) -> In x l1 -> In x l2 -> False.
+Proof.
+  induction l1 as [|y l1 IH]; simpl; intros l2 x ND H1 H2; [tauto|].
+  inversion ND as [|? ? Hn ND']; subst. destruct H1 as [->|H1].
+  - apply Hn. apply in_or_app. now right.
+  - eapply IH; eauto.
+Qed.
+
+Lemma nodup_app_r : forall (A : Type) (l1 l2 : list A), NoDup (l1 ++ l2) -> NoDup l2.
+Proof. induction l1; simpl; intros l2 H; auto. inversion H; auto. Qed.
+
+Lemma filter_true_id : forall (A : Type) (p : A -> bool) l, (forall x, In x l -> p x = true) -> filter p l = l.
+Proof.
+  induction l as [|x t IH]; simpl; intros H; auto. rewrite (H x (or_introl eq_refl)). f_equal. auto.
+Qed.
+
+Lemma filter_filter_l : forall (A : Type) (p q : A -> bool) l,
+  filter p (filter q l) = filter (fun x => q x && p x) l.
+Proof.
+  induction l as [|x t IH]; simpl; auto. destruct (q x); simpl; [destruct (p x); now rewrite IH | auto].
+Qed.
+
+Lemma find_comp_some : forall cs i c, find_comp cs i = Some c -> In c cs /\ nmem i (fst c) = true.
+Proof. intros cs i c H. unfold find_comp in H. now apply find_some in H. Qed.
+
+Lemma find_comp_ex : forall cs i, In i (flat_map fst cs) -> exists c, find_comp cs i = Some c.
+Proof.
+  intros cs i H. apply in_flat_map in H. destruct H as [c [Hc Hi]].
+  unfold find_comp. destruct (find (fun c0 : comp => nmem i (fst c0)) cs) eqn:E; eauto.
+  exfalso. apply (find_none _ _ E) in Hc. apply nmem_in in Hi. congruence.
+Qed.
+
+Lemma part_extract : forall (cs : list comp) ca a,
+  NoDup (flat_map fst cs) -> In ca cs -> nmem a (fst ca) = true ->
+  Permutation cs (ca :: filter (fun c => negb (nmem a (fst c))) cs).
+Proof.
+  induction cs as [|c cs IH]; intros ca a ND Hin Ha; [destruct Hin|].
+  simpl in ND. simpl. destruct (nmem a (fst c)) eqn:Ec; simpl.
+  - assert (ca = c).
+    { destruct Hin as [->|Hin]; auto. exfalso. apply (nodup_app_disj _ _ _ a ND).
+      - now apply nmem_in.
+      - apply in_flat_map. exists ca. split; auto. now apply nmem_in. }
+    subst ca. rewrite filter_true_id; auto.
+    intros c' Hc'. destruct (nmem a (fst c')) eqn:E'; auto. exfalso. apply (nodup_app_disj _ _ _ a ND).
+    + now apply nmem_in.
+    + apply in_flat_map. exists c'. split; auto. now apply nmem_in.
+  - destruct Hin as [->|Hin]; [congruence|].
+    eapply perm_trans; [apply perm_skip; apply (IH ca a); auto | apply perm_swap].
+    eapply nodup_app_r; eauto.
+Qed.
+
+Lemma part_extract2 : forall (cs : list comp) ca cb a b,
+  NoDup (flat_map fst cs) -> In ca cs -> In cb cs ->
+  nmem a (fst ca) = true -> nmem b (fst cb) = true -> nmem b (fst ca) = false ->
+  Permutation cs (ca :: cb :: filter (fun c => negb (nmem a (fst c)) && negb (nmem b (fst c))) cs)
+  /\ nmem a (fst cb) = false.
+Proof.
+  intros cs ca cb a b ND Ha Hb Ea Eb Eab.
+  pose proof (part_extract cs ca a ND Ha Ea) as P1.
+  assert (Hb' : In cb (filter (fun c => negb (nmem a (fst c))) cs)).
+  { assert (H : In cb (ca :: filter (fun c => negb (nmem a (fst c))) cs)) by (eapply Permutation_in; eauto).
+    destruct H as [->|H]; [congruence | exact H]. }
+  assert (ND1 : NoDup (flat_map fst (filter (fun c => negb (nmem a (fst c))) cs))).
+  { assert (H : NoDup (flat_map fst (ca :: filter (fun c => negb (nmem a (fst c))) cs))).
+    { eapply Permutation_NoDup; [apply Permutation_flat_map; exact P1 | exact ND]. }
+    simpl in H. eapply nodup_app_r; eauto. }
+  pose proof (part_extract _ cb b ND1 Hb' Eb) as P2. rewrite filter_filter_l in P2.
+  split.
+  - eapply perm_trans; [exact P1|]. now apply perm_skip.
+  - apply filter_In in Hb'. destruct Hb' as [_ H]. now destruct (nmem a (fst cb)).
+Qed.
+
+Lemma number_fst : forall (A : Type) (l : list A) k, map fst (number k l) = seq k (List.length l).
+Proof. induction l as [|x t IH]; simpl; intros k; auto. now rewrite IH. Qed.
+
+Lemma number_in : forall (A : Type) (d : A) (l : list A) k i x,
+  In (i, x) (number k l) -> k <= i /\ i < k + List.length l /\ nth (i - k) l d = x.
+Proof.
+  induction l as [|y t IH]; simpl; intros k i x H; [tauto|].
+  destruct H as [H|H].
+  - inversion H; subst. rewrite Nat.sub_diag. repeat split; auto; lia.
+  - apply IH in H. destruct H as [H1 [H2 H3]]. repeat split; try lia.
+    replace (i - k) with (S (i - S k)) by lia. exact H3.
+Qed.
+
+Lemma init_comps_fst : forall ts, flat_map fst (init_comps ts) = seq 0 (List.length ts).
+Proof.
+  intro ts. unfold init_comps. rewrite <- (number_fst _ ts 0). generalize 0.
+  induction ts as [|x t IH]; simpl; intros k; auto. now rewrite IH.
+Qed.
+
+Lemma init_comps_in : forall ts c, In c (init_comps ts) -> exists i, i < List.length ts /\ c = ([i], nth i ts []).
+Proof.
+  intros ts c H. unfold init_comps in H. apply in_map_iff in H. destruct H as [[i x] [<- H]].
+  apply (number_in _ ([] : table)) in H. destruct H as [_ [H2 H3]]. rewrite Nat.sub_0_r in H3.
+  exists i. split; [exact H2|]. simpl. now subst x.
+Qed.
+
+(* ==================================================================================================== *)
+(* 9. one join step on comprehensions *)
+
+Lemma filter_ext_in_l : forall (A : Type) (p q : A -> bool) l,
+  (forall x, In x l -> p x = q x) -> filter p l = filter q l.
+Proof.
+  induction l as [|x t IH]; simpl; intros H; auto. rewrite (H x (or_introl eq_refl)), IH; auto.
+Qed.
+
+Lemma sat_cons : forall l E t, sat (l :: E) t = link_sat l t && sat E t.
+Proof. reflexivity. Qed.
+
+Lemma comp_split_inner : forall l E ta (sa : bool) PB,
+  (forall tb, In tb PB -> sat E (ta ++ tb) = sa && sat E tb) ->
+  map urow (filter (sat (l :: E)) (map (app ta) PB)) =
+  if sa then map (fun tb => urow (ta ++ tb)) (filter (fun tb => link_sat l (ta ++ tb)) (filter (sat E) PB)) else [].
+Proof.
+  induction PB as [|tb PB IH]; cbn [map filter]; intros H; [now destruct sa|].
+  rewrite sat_cons, (H tb (or_introl eq_refl)).
+  assert (IH' := IH (fun t Ht => H t (or_intror Ht))). clear IH.
+  destruct sa; cbn [andb].
+  - destruct (sat E tb); cbn [filter].
+    + destruct (link_sat l (ta ++ tb)); cbn [andb map]; now rewrite IH'.
+    + rewrite andb_false_r. exact IH'.
+  - rewrite andb_false_r. exact IH'.
+Qed.
+
+Lemma comp_split : forall l E PA PB,
+  (forall ta tb, In ta PA -> In tb PB -> sat E (ta ++ tb) = sat E ta && sat E tb) ->
+  map urow (filter (sat (l :: E)) (flat_map (fun ta => map (app ta) PB) PA)) =
+  flat_map (fun ta => map (fun tb => urow (ta ++ tb))
+                          (filter (fun tb => link_sat l (ta ++ tb)) (filter (sat E) PB))) (filter (sat E) PA).
+Proof.
+  induction PA as [|ta PA IH]; intros PB H; cbn [flat_map filter]; auto.
+  rewrite filter_app, map_app, IH by (intros; apply H; simpl; auto).
+  rewrite (comp_split_inner l E ta (sat E ta)) by (intros; apply H; simpl; auto).
+  destruct (sat E ta); reflexivity.
+Qed.
+
+Lemma Forall2_map_r_inv : forall (A B C : Type) (R : A -> C -> Prop) (f : B -> C) a b,
+  Forall2 R a (map f b) -> Forall2 (fun x y => R x (f y)) a b.
+Proof.
+  intros A B C R f a b. revert a. induction b as [|y b IH]; simpl; intros a F; inversion F; subst; constructor; auto.
+Qed.
+
+Lemma link_sat_cross : forall jt a b lk rk ta tb,
+  nmem a (map fst ta) = true -> nmem b (map fst ta) = false -> nmem b (map fst tb) = true ->
+  exists ra rb, In (a, ra) ta /\ In (b, rb) tb /\ link_sat (jt, a, b, lk, rk) (ta ++ tb) = matches lk rk ra rb.
+Proof.
+  intros jt a b lk rk ta tb Ha Hb Hb'.
+  destruct (tget a ta) as [ra|] eqn:Ea; [|apply tget_none in Ea; congruence].
+  destruct (tget b tb) as [rb|] eqn:Eb; [|apply tget_none in Eb; congruence].
+  exists ra, rb. split; [now apply tget_some_in|]. split; [now apply tget_some_in|].
+  simpl. rewrite !tget_app, Ea. apply tget_none in Hb. now rewrite Hb, Eb.
+Qed.
+
+Lemma shared_key_in : forall lk rk c, shared_key lk rk c = true -> In c lk /\ In c rk.
+Proof.
+  unfold shared_key. induction lk as [|x lk IH]; destruct rk as [|y rk]; simpl; intros c H; try discriminate.
+  apply orb_true_iff in H. destruct H as [H|H].
+  - apply andb_true_iff in H. destruct H as [H1 H2]. apply String.eqb_eq in H1. apply String.eqb_eq in H2. auto.
+  - apply IH in H. tauto.
+Qed.
+
+(* ==================================================================================================== *)
+(* 10. the premises, unpacked *)
+
+Lemma cut_ok_spec : forall n css ls k side jt a b lk rk,
+  cut_ok n css ls k side = true -> nth_error ls k = Some (jt, a, b, lk, rk) ->
+  nmem a side = true /\ nmem b side = false /\
+  (forall k' jt' a' b' lk' rk', k' <> k -> nth_error ls k' = Some (jt', a', b', lk', rk') -> nmem a' side = nmem b' side) /\
+  (forall i j c, i < n -> j < n -> nmem i side = true -> nmem j side = false ->
+                 In c (schema css i) -> In c (schema css j) -> shared_key lk rk c = true).
+Proof.
+  intros n css ls k side jt a b lk rk H Hk. unfold cut_ok in H. rewrite Hk in H.
+  apply andb_true_iff in H. destruct H as [H H4]. apply andb_true_iff in H. destruct H as [H H3].
+  apply andb_true_iff in H. destruct H as [H1 H2].
+  split; [exact H1|]. split; [now destruct (nmem b side)|]. split.
+  - intros k' jt' a' b' lk' rk' Hne Hk'. rewrite forallb_forall in H3.
+    assert (Hlt : k' < List.length ls) by (apply nth_error_Some; congruence).
+    specialize (H3 k' (proj2 (in_seq _ _ _) (conj (Nat.le_0_l _) Hlt))).
+    rewrite Hk' in H3. apply orb_true_iff in H3. destruct H3 as [H3|H3].
+    + apply Nat.eqb_eq in H3. contradiction.
+    + now apply eqb_prop in H3.
+  - intros i j c Hi Hj Si Sj Hci Hcj. rewrite forallb_forall in H4.
+    specialize (H4 i (proj2 (in_seq _ _ _) (conj (Nat.le_0_l _) Hi))). rewrite Si in H4. simpl in H4.
+    rewrite forallb_forall in H4.
+    specialize (H4 j (proj2 (in_seq _ _ _) (conj (Nat.le_0_l _) Hj))). rewrite Sj in H4. simpl in H4.
+    rewrite forallb_forall in H4. specialize (H4 c Hci).
+    apply mem_in in Hcj. rewrite Hcj in H4. exact H4.
+Qed.
+
+Lemma subset_spec : forall ks cs, subset ks cs = true -> forall c, In c ks -> In c cs.
+Proof. unfold subset. intros ks cs H c Hc. rewrite forallb_forall in H. apply mem_in. auto. Qed.
+
+Section Main.
+  Variables (css : list (list col)) (sides : nat -> list nat) (ts : list table) (ls : list link).
+  Hypothesis OK : nary_ok css sides ts ls = true.
+  Let n := List.length ts.
+
+  Lemma ok_parts :
+    (forall i, uniform (schema css i) (nth i ts [])) /\ List.length ls + 1 = n /\
+    (forall l, In l ls -> link_ok n css l = true) /\
+    (forall k, k < List.length ls -> cut_ok n css ls k (sides k) = true).
+  Proof.
+    unfold nary_ok in OK. fold n in OK.
+    apply andb_true_iff in OK. destruct OK as [H H5]. apply andb_true_iff in H. destruct H as [H H4].
+    apply andb_true_iff in H. destruct H as [H H3]. apply andb_true_iff in H. destruct H as [H1 H2].
+    apply Nat.eqb_eq in H1. apply Nat.eqb_eq in H3. rewrite forallb_forall in H2, H4, H5.
+    split; [|split; [exact H3|split; [exact H4|]]].
+    - intros i. destruct (Nat.lt_ge_cases i n) as [Hi|Hi].
+      + apply uniformb_spec.
+        assert (Hin : In (nth i css [], nth i ts []) (combine css ts)).
+        { rewrite <- (combine_nth css ts i [] []) by exact H1. apply nth_In.
+          rewrite combine_length, H1. fold n. now rewrite Nat.min_id. }
+        apply (H2 _ Hin).
+      + rewrite (nth_overflow ts) by exact Hi. intros r [].
+    - intros k Hk. apply H5. apply in_seq. lia.
+  Qed.
+
+  Definition links_of (done : list nat) : list link :=
+    flat_map (fun k => match nth_error ls k with Some l => [l] | None => [] end) done.
+
+  Lemma prod_wf : forall S t, In t (prod ts S) -> wf_tuple css t.
+  Proof.
+    intros S t Ht i r Hr. destruct ok_parts as [U _]. apply (U i). eapply prod_rows; eauto.
+  Qed.
+
+  (* what is known about link k used in orientation f *)
+  Lemma orient_facts : forall k l f jt a b lk rk,
+    k < List.length ls -> nth_error ls k = Some l -> orient l f = (jt, a, b, lk, rk) ->
+    jt = JInner /\ a < n /\ b < n /\
+    (forall c, In c lk -> In c (schema css a)) /\ (forall c, In c rk -> In c (schema css b)) /\
+    nmem a (sides k) = negb (nmem b (sides k)) /\
+    (forall i j c, i < n -> j < n -> nmem i (sides k) = nmem a (sides k) -> nmem j (sides k) = nmem b (sides k) ->
+                   In c (schema css i) -> In c (schema css j) -> shared_key lk rk c = true) /\
+    (forall k', k' < List.length ls -> k' <> k -> nmem a (sides k') = nmem b (sides k')) /\
+    (forall t, link_sat (jt, a, b, lk, rk) t = link_sat l t) /\
+    (forall jt' a' b' lk' rk', l = (jt', a', b', lk', rk') -> (a' = a /\ b' = b) \/ (a' = b /\ b' = a)).
+  Proof.
+    intros k l f jt a b lk rk Hk Hl Ho.
+    destruct ok_parts as [_ [_ [HL HC]]].
+    destruct l as [[[[jt0 a0] b0] lk0] rk0].
+    pose proof (HL _ (nth_error_In _ _ Hl)) as Hok. unfold link_ok in Hok.
+    apply andb_true_iff in Hok. destruct Hok as [Hok K2]. apply andb_true_iff in Hok. destruct Hok as [Hok K1].
+    apply andb_true_iff in Hok. destruct Hok as [Hok B]. apply andb_true_iff in Hok. destruct Hok as [J A].
+    apply Nat.ltb_lt in A. apply Nat.ltb_lt in B.
+    assert (jt0 = JInner) by (destruct jt0; simpl in J; congruence || reflexivity).
+    destruct (cut_ok_spec _ _ _ _ _ _ _ _ _ _ (HC k Hk) Hl) as [Sa [Sb [Sother Sov]]].
+    assert (Oth : forall k', k' < List.length ls -> k' <> k -> nmem a0 (sides k') = nmem b0 (sides k')).
+    { intros k' Hk' Hne. destruct (nth_error ls k') as [[[[[jt' a'] b'] lk'] rk']|] eqn:E'.
+      - destruct (cut_ok_spec _ _ _ _ _ _ _ _ _ _ (HC k' Hk') E') as [_ [_ [S' _]]].
+        apply (S' k jt0 a0 b0 lk0 rk0); auto.
+      - apply nth_error_None in E'. lia. }
+    destruct f; simpl in Ho; inversion Ho; subst.
+    - (* flipped *)
+      split; [reflexivity|]. split; [exact B|]. split; [exact A|].
+      split; [apply subset_spec; exact K2|]. split; [apply subset_spec; exact K1|].
+      split; [now rewrite Sa, Sb|]. split.
+      + intros i j c Hi Hj Si Sj Hci Hcj. rewrite shared_key_swap. apply (Sov j i c); auto; congruence.
+      + split; [intros; symmetry; now apply Oth|]. split.
+        * intro t. apply (link_sat_flip (JInner, b, a, rk, lk) t).
+        * intros jt' a' b' lk' rk' E. inversion E; subst. right. auto.
+    - split; [reflexivity|]. split; [exact A|]. split; [exact B|].
+      split; [apply subset_spec; exact K1|]. split; [apply subset_spec; exact K2|].
+      split; [now rewrite Sa, Sb|]. split.
+      + intros i j c Hi Hj Si Sj Hci Hcj. apply (Sov i j c); auto; congruence.
+      + split; [exact Oth|]. split; [reflexivity|].
+        intros jt' a' b' lk' rk' E. inversion E; subst. left. auto.
+  Qed.
+
+  (* ---------- the invariant of a run ---------- *)
+  Record Inv (done : list nat) (cs : list comp) : Prop := {
+    I_part : Permutation (flat_map fst cs) (seq 0 n);
+    I_len : List.length cs + List.length done = n;
+    I_side : forall k c x y, k < List.length ls -> ~ In k done -> In c cs -> In x (fst c) -> In y (fst c) ->
+               nmem x (sides k) = nmem y (sides k);
+    I_closed : forall jt a b lk rk c, In (jt, a, b, lk, rk) (links_of done) -> In c cs -> nmem a (fst c) = nmem b (fst c);
+    I_repr : forall c, In c cs -> Forall2 rsame (snd c) (map urow (filter (sat (links_of done)) (prod ts (fst c))));
+    I_coh : forall c t, In c cs -> In t (prod ts (fst c)) -> sat (links_of done) t = true -> coh css t }.
+
+  Lemma inv_init : Inv [] (init_comps ts).
+  Proof.
+    constructor.
+    - rewrite init_comps_fst. apply Permutation_refl.
+    - unfold init_comps. rewrite map_length. simpl.
+      assert (H : List.length (number 0 ts) = List.length (map fst (number 0 ts))) by (now rewrite map_length).
+      rewrite H, number_fst, seq_length. unfold n. lia.
+    - intros k c x y _ _ Hc Hx Hy. apply init_comps_in in Hc. destruct Hc as [i [_ ->]]. simpl in Hx, Hy.
+      destruct Hx as [<-|[]]. destruct Hy as [<-|[]]. reflexivity.
+    - intros jt a b lk rk c [].
+    - intros c Hc. apply init_comps_in in Hc. destruct Hc as [i [_ ->]]. simpl.
+      induction (nth i ts []) as [|r T IH]; simpl; constructor; auto.
+      intro c. simpl. unfold row_union. simpl. now rewrite app_nil_r.
+    - intros c t Hc Ht _. apply init_comps_in in Hc. destruct Hc as [i [_ ->]]. simpl in Ht.
+      apply in_flat_map in Ht. destruct Ht as [r [_ [<-|[]]]].
+      intros i1 i2 r1 r2 x [E1|[]] [E2|[]] _ _. congruence.
+  Qed.
+
+  Lemma in_parts_lt : forall done cs c x, Inv done cs -> In c cs -> In x (fst c) -> x < n.
+  Proof.
+    intros done cs c x I Hc Hx.
+    assert (H : In x (seq 0 n)).
+    { eapply Permutation_in; [apply (I_part _ _ I)|]. apply in_flat_map. eauto. }
+    apply in_seq in H. lia.
+  Qed.
+
+  (* ---------- one link ---------- *)
+  Lemma step_inv : forall done cs k f l,
+    Inv done cs -> k < List.length ls -> ~ In k done -> nth_error ls k = Some l ->
+    Inv (k :: done) (apply_link rel_join cs (orient l f)) /\ List.length (apply_link rel_join cs (orient l f)) < List.length cs.
+  Proof.
+    intros done cs k f l I Hk Hnd Hl.
+    destruct (orient l f) as [[[[jt a] b] lk] rk] eqn:Eo.
+    destruct (orient_facts k l f jt a b lk rk Hk Hl Eo) as (-> & An & Bn & Klk & Krk & Sab & Sov & Soth & Lsat & Lab).
+    assert (ND : NoDup (flat_map fst cs)).
+    { eapply Permutation_NoDup; [apply Permutation_sym; apply (I_part _ _ I) | apply seq_NoDup]. }
+    assert (Ain : In a (flat_map fst cs)).
+    { eapply Permutation_in; [apply Permutation_sym; apply (I_part _ _ I) | apply in_seq; lia]. }
+    assert (Bin : In b (flat_map fst cs)).
+    { eapply Permutation_in; [apply Permutation_sym; apply (I_part _ _ I) | apply in_seq; lia]. }
+    destruct (find_comp_ex cs a Ain) as [ca Fa]. destruct (find_comp_ex cs b Bin) as [cb Fb].
+    destruct (find_comp_some _ _ _ Fa) as [Hca Ea]. destruct (find_comp_some _ _ _ Fb) as [Hcb Eb].
+    assert (Eab : nmem b (fst ca) = false).
+    { destruct (nmem b (fst ca)) eqn:E; auto. exfalso.
+      assert (H : nmem a (sides k) = nmem b (sides k)).
+      { apply (I_side _ _ I k ca); auto; now apply nmem_in. }
+      rewrite Sab in H. now destruct (nmem b (sides k)). }
+    destruct (part_extract2 cs ca cb a b ND Hca Hcb Ea Eb Eab) as [P Eba].
+    unfold apply_link. rewrite Fa, Fb, Eab.
+    set (rest := filter (fun c => negb (nmem a (fst c)) && negb (nmem b (fst c))) cs) in *.
+    destruct ca as [Sa Ta]. destruct cb as [Sb Tb]. simpl fst in *. simpl snd in *.
+    assert (Hrest : forall c, In c rest -> In c cs /\ nmem a (fst c) = false /\ nmem b (fst c) = false).
+    { intros c Hc. apply filter_In in Hc. destruct Hc as [Hc H]. apply andb_true_iff in H.
+      destruct H as [H1 H2]. split; auto. split; [now destruct (nmem a (fst c)) | now destruct (nmem b (fst c))]. }
+    assert (ND2 : NoDup (Sa ++ Sb ++ flat_map fst rest)).
+    { apply (Permutation_NoDup (Permutation_flat_map fst P) ND). }
+    assert (Disj : forall x, nmem x Sa = true -> nmem x Sb = false).
+    { intros x Hx. apply nmem_false. intro Hx'. apply nmem_in in Hx.
+      apply (nodup_app_disj _ _ _ x ND2 Hx). apply in_or_app. now left. }
+    assert (EL : links_of (k :: done) = l :: links_of done).
+    { unfold links_of. simpl. now rewrite Hl. }
+    set (E := links_of done) in *.
+    (* no applied link crosses Sa / Sb: the satisfaction of a concatenated tuple splits *)
+    assert (Split : forall ta tb, In ta (prod ts Sa) -> In tb (prod ts Sb) -> sat E (ta ++ tb) = sat E ta && sat E tb).
+    { intros ta tb Hta Htb. apply sat_app_split.
+      - rewrite (prod_keys _ _ _ Hta), (prod_keys _ _ _ Htb). exact Disj.
+      - intros jt' a' b' lk' rk' Hin. rewrite (prod_keys _ _ _ Hta), (prod_keys _ _ _ Htb). split.
+        + apply (I_closed _ _ I jt' a' b' lk' rk' (Sa, Ta)); auto.
+        + apply (I_closed _ _ I jt' a' b' lk' rk' (Sb, Tb)); auto. }
+    (* the two rows of the link inside a concatenated tuple *)
+    assert (Cross : forall ta tb, In ta (prod ts Sa) -> In tb (prod ts Sb) ->
+              exists ra rb, In (a, ra) ta /\ In (b, rb) tb /\ link_sat l (ta ++ tb) = matches lk rk ra rb).
+    { intros ta tb Hta Htb. rewrite <- Lsat. apply link_sat_cross.
+      - now rewrite (prod_keys _ _ _ Hta).
+      - now rewrite (prod_keys _ _ _ Hta).
+      - now rewrite (prod_keys _ _ _ Htb). }
+    split.
+    2:{ simpl. apply Permutation_length in P. simpl in P. lia. }
+    constructor; try rewrite EL.
+    - (* partition *)
+      eapply perm_trans; [|apply (I_part _ _ I)]. apply Permutation_sym.
+      eapply perm_trans; [apply Permutation_flat_map; exact P|]. simpl. rewrite app_assoc. apply Permutation_refl.
+    - pose proof (I_len _ _ I) as HL. apply Permutation_length in P. simpl in *. lia.
+    - (* one-sidedness *)
+      intros k' c x y Hk' Hnd' Hc Hx Hy.
+      assert (Hne : k' <> k) by (intro; subst; apply Hnd'; now left).
+      assert (Hnd'' : ~ In k' done) by (intro; apply Hnd'; now right).
+      destruct Hc as [<-|Hc].
+      + simpl in Hx, Hy.
+        assert (Z : forall z, In z (Sa ++ Sb) -> nmem z (sides k') = nmem a (sides k')).
+        { intros z Hz. apply in_app_or in Hz. destruct Hz as [Hz|Hz].
+          - apply (I_side _ _ I k' (Sa, Ta)); auto. now apply nmem_in.
+          - rewrite (Soth k' Hk' Hne). apply (I_side _ _ I k' (Sb, Tb)); auto. now apply nmem_in. }
+        now rewrite (Z x Hx), (Z y Hy).
+      + apply (I_side _ _ I k' c); auto. now apply Hrest.
+    - (* applied links stay inside components *)
+      intros jt' a' b' lk' rk' c [El|Hin] Hc.
+      + assert (H : nmem a (fst c) = nmem b (fst c)).
+        { destruct Hc as [<-|Hc].
+          - simpl. rewrite !nmem_app, Ea, Eb. now rewrite orb_true_r.
+          - destruct (Hrest c Hc) as [_ [H1 H2]]. congruence. }
+        destruct (Lab _ _ _ _ _ El) as [[-> ->]|[-> ->]]; congruence.
+      + destruct Hc as [<-|Hc].
+        * simpl. rewrite !nmem_app.
+          pose proof (I_closed _ _ I jt' a' b' lk' rk' (Sa, Ta) Hin Hca) as H1.
+          pose proof (I_closed _ _ I jt' a' b' lk' rk' (Sb, Tb) Hin Hcb) as H2. simpl in H1, H2.
+          now rewrite H1, H2.
+        * apply (I_closed _ _ I jt' a' b' lk' rk' c Hin). now apply Hrest.
+    - (* representation *)
+      intros c [<-|Hc].
+      + simpl fst. simpl snd. rewrite prod_app, comp_split by exact Split.
+        unfold rel_inner.
+        apply (inner_rows_rel tuple tuple (fun x t => rsame x (urow t)) (fun x t => rsame x (urow t)) rsame lk rk
+                 (fun ta tb => link_sat l (ta ++ tb)) (fun ta tb => urow (ta ++ tb))).
+        * apply Forall2_map_r_inv. apply (I_repr _ _ I (Sa, Ta) Hca).
+        * apply Forall2_map_r_inv. apply (I_repr _ _ I (Sb, Tb) Hcb).
+        * intros x ta y tb Hx Hta Hy Htb.
+          apply filter_In in Hta. destruct Hta as [Hta Sta]. apply filter_In in Htb. destruct Htb as [Htb Stb].
+          destruct (Cross ta tb Hta Htb) as [ra [rb [Hra [Hrb Hm]]]]. rewrite Hm. split.
+          -- apply matches_ext.
+             ++ intros c Hc. rewrite (rsame_get _ _ Hx).
+                apply (get_urow_coh css c ta a ra); auto.
+                ** eapply prod_wf; eauto.
+                ** apply (I_coh _ _ I (Sa, Ta) ta); auto.
+             ++ intros c Hc. rewrite (rsame_get _ _ Hy).
+                apply (get_urow_coh css c tb b rb); auto.
+                ** eapply prod_wf; eauto.
+                ** apply (I_coh _ _ I (Sb, Tb) tb); auto.
+          -- intros _. eapply rsame_trans; [apply rsame_row_union; eassumption|]. apply rsame_sym. apply urow_app.
+      + destruct (Hrest c Hc) as [Hc' [Na _]].
+        rewrite (filter_ext_in_l _ (sat (l :: E)) (sat E)); [apply (I_repr _ _ I c Hc')|].
+        intros t Ht. rewrite sat_cons, <- Lsat.
+        rewrite link_sat_absent_l; auto. now rewrite (prod_keys _ _ _ Ht).
+    - (* coherence *)
+      intros c t [<-|Hc] Ht Hs.
+      + simpl fst in Ht. apply prod_app_in in Ht. destruct Ht as [ta [tb [Hta [Htb ->]]]].
+        rewrite sat_cons in Hs. apply andb_true_iff in Hs. destruct Hs as [Hm Hs].
+        rewrite (Split ta tb Hta Htb) in Hs. apply andb_true_iff in Hs. destruct Hs as [Sta Stb].
+        destruct (Cross ta tb Hta Htb) as [ra [rb [Hra [Hrb Hm']]]]. rewrite Hm' in Hm.
+        unfold matches in Hm. apply keys_match_spec in Hm. destruct Hm as [Hkeys _].
+        pose proof (I_coh _ _ I (Sa, Ta) ta Hca Hta Sta) as Ca.
+        pose proof (I_coh _ _ I (Sb, Tb) tb Hcb Htb Stb) as Cb.
+        assert (X : forall i j ri rj c, In (i, ri) ta -> In (j, rj) tb ->
+                      In c (schema css i) -> In c (schema css j) -> get c ri = get c rj).
+        { intros i j ri rj c Hi Hj Hci Hcj.
+          assert (Hi' : In i Sa) by (rewrite <- (prod_keys _ _ _ Hta); apply in_map_iff; exists (i, ri); auto).
+          assert (Hj' : In j Sb) by (rewrite <- (prod_keys _ _ _ Htb); apply in_map_iff; exists (j, rj); auto).
+          assert (SK : shared_key lk rk c = true).
+          { apply (Sov i j c); auto.
+            - apply (in_parts_lt done cs (Sa, Ta) i I Hca Hi').
+            - apply (in_parts_lt done cs (Sb, Tb) j I Hcb Hj').
+            - apply (I_side _ _ I k (Sa, Ta)); auto. now apply nmem_in.
+            - apply (I_side _ _ I k (Sb, Tb)); auto. now apply nmem_in. }
+          destruct (shared_key_in _ _ _ SK) as [Hlk Hrk].
+          rewrite (Ca i a ri ra c Hi Hra Hci (Klk c Hlk)).
+          rewrite (shared_key_get lk rk c ra rb SK Hkeys).
+          apply (Cb b j rb rj c Hrb Hj (Krk c Hrk) Hcj). }
+        intros i j ri rj c Hi Hj Hci Hcj.
+        apply in_app_or in Hi. apply in_app_or in Hj. destruct Hi as [Hi|Hi], Hj as [Hj|Hj].
+        * apply (Ca i j ri rj c); auto.
+        * apply (X i j ri rj c); auto.
+        * symmetry. apply (X j i rj ri c); auto.
+        * apply (Cb i j ri rj c); auto.
+      + destruct (Hrest c Hc) as [Hc' _]. rewrite sat_cons in Hs. apply andb_true_iff in Hs.
+        apply (I_coh _ _ I c t Hc' Ht). tauto.
+  Qed.
+End Main.
